@@ -22,12 +22,17 @@ def run(ctx: Ctx) -> None:
     rep.rule("C07.R4", "atomic publication and marker-last (as C06.R1 / C06.R2)")
     S.check_then_act(ctx, v, "C07.R1")
     n2 = S.mkdir_idempotent(ctx, v, "C07.R2")
-    rep.floor("C07.R2", n2, 4)
+    rep.floor("C07.R2", n2, 2)
     n3 = S.unique_temporaries(ctx, v, "C07.R3")
     rep.floor("C07.R3", n3, 3)
     n4 = S.atomic_publication(ctx, v, "C07.R4")
     S.marker_last(ctx, v, "C07.R4")
     rep.floor("C07.R4", n4, 3)
+    rep.rule("C07.R5", "no removal of names the call did not create itself (other processes' committed entries / in-flight temporaries)")
+    S.no_shared_removal(ctx, v, "C07.R5")
+    rep.rule("C07.R6", "the cache wrapper answers path queries from the wrapped store every time (another process may have re-committed the path)")
+    from .c12 import passthrough_rules
+    passthrough_rules(ctx, "C07.R6", only=["sync_paths", "fetch_paths"])
     f = ctx.prog.funcs.get("dds._api._store")
     if f is not None:
         rep.info("C07.R1", f.qname, "delayed creation of the default store is a check-then-set on a module global inside one process (listed, not judged: the property is about processes)", f.loc())
